@@ -70,6 +70,10 @@ def TZD(dt, tz):
         return "Xnaive:%s" % dt.isoformat()
     if dt.utcoffset() != dt.astimezone(tz).utcoffset():
         return "Xwrongzone:%s" % dt.isoformat()
+    if tz is not None and not (dt.tzinfo is tz or dt.tzinfo == tz):
+        # same offset at this instant, but not the zone that was asked for (a fixed offset in
+        # place of a zone with rules, say): arithmetic on the result would go wrong later
+        return "Xothertzinfo:%r" % (dt.tzinfo,)
     return T(instant_us(dt))
 
 
